@@ -112,6 +112,7 @@ Definition py_to_bytes_be (v k : pv) : pm pv := lift (Val.py_to_bytes_be v k).
 Definition py_range (v : pv) : pm pv := lift (Val.py_range v).
 Definition py_enumerate (c st : pv) : pm pv := lift (Val.py_enumerate c st).
 Definition py_get_default (d k dflt : pv) : pm pv := lift (Val.py_get_default d k dflt).
+Definition py_enum_member (ms : list pv) (v : pv) : pm pv := lift (Val.py_enum_member ms v).
 
 (* ---- operations taking computations ---- *)
 Fixpoint py_all (l : list pv) (f : pv -> pm pv) : pm pv :=
